@@ -2,11 +2,14 @@ import Chartparse.Proofs.ReTE
 namespace Chartparse.Rx
 open Chartparse
 
-/-- `make_field_regex(name, ".+?")` = `^\s*?{name} = \"?(.+?)\"?\s*?$` (leading `^` dropped) -/
-def fieldStrRe (name : Str) : Re :=
+/-- the field recogniser factory `^\s*?Name = "?(value)"?\s*?$` for a value class `vs` (`\d`, `.`, `[^"]`) -/
+def fieldRe (vs : CSet) (name : Str) : Re :=
   .cat (.star false .space) <| .cat (lits (name ++ [32, 61, 32])) <|
-  .cat (.opt true (.chr (.lit 34))) <| .cat (.group 1 (plusLazy .any)) <|
+  .cat (.opt true (.chr (.lit 34))) <| .cat (.group 1 (plusLazy vs)) <|
   .cat (.opt true (.chr (.lit 34))) tailRe
+
+/-- multiword string fields: value class `.` -/
+def fieldStrRe (name : Str) : Re := fieldRe .any name
 
 /-- after the value: an optional quote, blanks, end — fails while a later quote is still ahead -/
 theorem close_fail {α} (k : Str → Caps → Option α) (r : Str) (cs : Caps) (h34 : 34 ∈ r.tail ∨ (34 ∈ r ∧ r.head? ≠ some 34)) :
@@ -38,7 +41,7 @@ theorem field_str_verbatim (a : Nat) (name' p v q : Str) (ha : CSet.space.test a
     (hp : AllIn .space p) (hv : AllIn .any v) (hv0 : v ≠ []) (hq : AllIn .space q) :
     (fieldStrRe (a :: name')).matchGroups (p ++ ((a :: name') ++ [32, 61, 32] ++ (34 :: (v ++ (34 :: q)))))
       = some [(1, v)] := by
-  unfold Re.matchGroups fieldStrRe
+  unfold Re.matchGroups fieldStrRe fieldRe
   rw [exec_cat]
   apply starLazy_run _ _ p _ _ _ hp
   · intro c t' hc
